@@ -212,6 +212,35 @@ func runC32(c *eng.Ctx) {
 					if a.Pos && strings.HasPrefix(a.Expr, "strings.HasSuffix(p0, ") && strings.Contains(a.Expr, "echoedPromptSuffixes") {
 						ok = true
 					}
+					// slices.ContainsFunc(table, func(s string) bool { return strings.HasSuffix(prompt, s) })
+					if call, isCall := a.V.(*ssa.Call); isCall && a.Pos && strings.HasPrefix(eng.CalleeName(call), "slices.ContainsFunc") && len(call.Call.Args) == 2 && strings.Contains(eng.Render(call.Call.Args[0]), "echoedPromptSuffixes") {
+						if mc, isMC := call.Call.Args[1].(*ssa.MakeClosure); isMC {
+							bindsPrompt := false
+							if len(mc.Bindings) == 1 {
+								if al, isAl := mc.Bindings[0].(*ssa.Alloc); isAl { // the cell the parameter was spilled into
+									n := 0
+									for _, ref := range *al.Referrers() {
+										if st, isSt := ref.(*ssa.Store); isSt && st.Addr == ssa.Value(al) {
+											n++
+											bindsPrompt = st.Val == ssa.Value(dm.Params[0])
+										}
+									}
+									bindsPrompt = bindsPrompt && n == 1
+								} else {
+									bindsPrompt = mc.Bindings[0] == ssa.Value(dm.Params[0])
+								}
+							}
+							if pred, isFn := mc.Fn.(*ssa.Function); isFn && len(pred.Params) == 1 && bindsPrompt {
+								rs := eng.Returns(pred)
+								if len(rs) == 1 {
+									if hs, isHS := eng.Unwrap(eng.RetResults(rs[0])[0]).(*ssa.Call); isHS && eng.CalleeName(hs) == "strings.HasSuffix" {
+										fromPrompt := strings.Contains(eng.Render(hs.Call.Args[0]), "fv:")
+										ok = fromPrompt && hs.Call.Args[1] == ssa.Value(pred.Params[0])
+									}
+								}
+							}
+						}
+					}
 				}
 				c.Check("R5", "echo-only-on-suffix", r.Pos(), ok, "Echo is chosen only where the prompt ends with a table entry (suffix, not substring)", atomsShort(g))
 			case modes["ResponseModeSecret"]:
